@@ -5,8 +5,8 @@
      scan <live> <buffhex16> <skip> <words: comma-separated decimal | ->
          -> <OK|MORE|rc=N> <live> <buffhex16> <data index>
 
-     mini <s> <b>   -> mini_dfa[s][b]
-     big <s> <c>    -> big_dfa[s][c]
+     scan.mini <s> <b>   -> mini_dfa[s][b]
+     scan.big <s> <c>    -> big_dfa[s][c]
 
    The words are stored in network byte order in a malloc'ed array of exactly
    that many words (so that AddressSanitizer sees any read past `limit`).
@@ -85,7 +85,7 @@ main(void)
              (long) (bs.data - arr));
       free(arr);
     }
-    else if (!strcmp(cmd, "mini")) {
+    else if (!strcmp(cmd, "scan.mini")) {
       char *a = strtok(NULL, " \n");
       char *b = strtok(NULL, " \n");
       unsigned s = a ? atoi(a) : 99, x = b ? atoi(b) : 9;
@@ -94,7 +94,7 @@ main(void)
       else
         printf("%u\n", mini_dfa[s][x]);
     }
-    else if (!strcmp(cmd, "big")) {
+    else if (!strcmp(cmd, "scan.big")) {
       char *a = strtok(NULL, " \n");
       char *b = strtok(NULL, " \n");
       unsigned s = a ? atoi(a) : 99, x = b ? atoi(b) : 999;
